@@ -114,7 +114,12 @@ def gen_worker(arg):
         try:
             info = eng.verify(c, prop)
         except front.AttachError as e:
-            return {'attach_error': str(e)}
+            sha = None
+            try:
+                sha = front.find_function(c.file, c.source or c.qual)[2]
+            except front.AttachError:
+                pass
+            return {'attach_error': str(e), 'function': c.key, 'sha256': sha}
         except Unsupported as e:
             sha = None
             try:
@@ -163,7 +168,15 @@ class Checker:
             outs = list(ex.map(gen_worker, [(self.prop, k, front.REPO) for k in keys], chunksize=1))
         for key, out in zip(keys, outs):
             if out.get('attach_error'):
-                self.problems.append('contract cannot attach: %s' % out['attach_error'])
+                fkey = out.get('function')
+                fkey = '%s::%s' % fkey if isinstance(fkey, tuple) else fkey
+                base = self.baseline()['functions'].get(fkey) if fkey else None
+                if base is not None and out.get('sha256') != base:
+                    # the function was restructured (loops added/removed, renamed, deleted) since the baseline proof: the contract's loop
+                    # ordinals no longer fit; that is not a defect of the code: no proof for this function on this text, the bounded stand-in decides
+                    self.fallbacks.append({'function': fkey, 'reason': 'changed function: the contract no longer attaches (%s)' % out['attach_error'], 'sha256': out.get('sha256')})
+                else:
+                    self.problems.append('contract cannot attach: %s' % out['attach_error'])
             elif out.get('crash'):
                 self.problems.append('checker crash while generating VCs for %s: %s' % (key[1], out['crash']))
             elif out.get('unsupported'):
